@@ -83,6 +83,8 @@ def cond_discr(crate, x, ty, label, all_labels):
             label = rest[0]
     if ty.startswith('core::option::Option<') or ty.startswith('std::option::Option<'):
         names = {0: 'absent', 1: 'present'}
+        if x[0] == 'next' and isinstance(x[1], tuple) and x[1][0] == 'indices':
+            x = ('next', x[1][1])       # there is a next index of X iff there is a next element of X
         if label in names:
             if x[0] == 'sget':
                 return (names[label], ('skey', x[1], x[2]))
